@@ -26,6 +26,8 @@ fn setup(ctx: &mut Ctx) {
     ctx.floor("no-verneed-section", 20);
     ctx.floor("no-verdef-section", 20);
     ctx.floor("def:multiple-names", 200);
+    ctx.floor("via:ElfBytes", 500);
+    ctx.floor("via:ElfStream", 500);
     for e in Enc::ALL {
         ctx.floor(&format!("enc:{}", e.name()), 50);
     }
@@ -175,4 +177,83 @@ fn run(ctx: &mut Ctx, si: usize, _case: u64) {
     }
 }
 
-fn via_file(_ctx: &mut Ctx, _enc: Enc, _any: bool) {}
+/// The same model wrapped in a full ELF and queried through both parsers.
+fn via_file(ctx: &mut Ctx, enc: Enc, _any: bool) {
+    use crate::codec::k;
+    use crate::gen::elf::{build, ObjSpec, Part, Sec};
+    let m = gen_model(&mut ctx.rng, 6, 5, 6);
+    let scattered = ctx.rng.bool();
+    let vb = emit(enc, &m, &mut ctx.rng, scattered);
+    note_model(ctx, enc, &m, &vb);
+    let mut spec = ObjSpec::new(enc);
+    spec.max_gap = [0usize, 4, 9][ctx.rng.usize_below(3)];
+    let mut order = [Part::Phdrs, Part::Bodies, Part::Shdrs];
+    ctx.rng.shuffle(&mut order);
+    spec.order = order;
+    if ctx.rng.bool() {
+        spec.add(Sec::new(b".text", k::SHT_PROGBITS, ctx.rng.bytes(9)));
+    }
+    let verstr = spec.add(Sec::new(b".gnu.verstr", k::SHT_STRTAB, vb.strtab.clone()));
+    // the three version sections in a random order
+    let mut kinds = vec![0u8];
+    if m.has_needs {
+        kinds.push(1);
+    }
+    if m.has_defs {
+        kinds.push(2);
+    }
+    ctx.rng.shuffle(&mut kinds);
+    for kd in kinds {
+        match kd {
+            0 => {
+                let mut vs = Sec::new(b".gnu.version", k::SHT_GNU_VERSYM, vb.versym.clone());
+                vs.entsize = 2;
+                vs.addralign = 2;
+                spec.add(vs);
+            }
+            1 => {
+                let mut vr = Sec::new(b".gnu.version_r", k::SHT_GNU_VERNEED, vb.verneed.clone());
+                vr.link = verstr as u32;
+                vr.info = m.needs.len() as u32;
+                spec.add(vr);
+            }
+            _ => {
+                let mut vd = Sec::new(b".gnu.version_d", k::SHT_GNU_VERDEF, vb.verdef.clone());
+                vd.link = verstr as u32;
+                vd.info = m.defs.len() as u32;
+                spec.add(vd);
+            }
+        }
+    }
+    let b = build(&spec, &mut ctx.rng);
+    ctx.set_input(&b.bytes);
+    ctx.sample(|| format!("{} object ({} bytes): needs={} defs={} versym={} scattered={}", enc.name(), b.bytes.len(), m.needs.len(), m.defs.len(), m.versym.len(), scattered));
+    match super::util::open_slice(&b.bytes) {
+        Ok(f) => match f.symbol_version_table() {
+            Ok(Some(t)) => {
+                ctx.count("via:ElfBytes");
+                if !judge(ctx, "ElfBytes", &m, &t) {
+                    return;
+                }
+            }
+            other => {
+                ctx.violation("ElfBytes:symbol_version_table:unavailable", format!("a well-formed versioned object gave {:?}", other.map(|o| o.is_some())));
+                return;
+            }
+        },
+        Err(e) => {
+            ctx.inconclusive(format!("generated versioned object does not open: {e}"));
+            return;
+        }
+    }
+    match super::util::open_stream(&b.bytes) {
+        Ok(mut f) => match f.symbol_version_table() {
+            Ok(Some(t)) => {
+                ctx.count("via:ElfStream");
+                judge(ctx, "ElfStream", &m, &t);
+            }
+            other => ctx.violation("ElfStream:symbol_version_table:unavailable", format!("a well-formed versioned object gave {:?}", other.map(|o| o.is_some()))),
+        },
+        Err(e) => ctx.inconclusive(format!("generated versioned object does not open as a stream: {e}")),
+    }
+}
